@@ -49,6 +49,15 @@ pub fn run(o: &Opts) -> Report {
     let mut rep = par(&strings, |s, rep| check(s, rep));
     rep.max_len_done = n;
     rep.rules = strings.len() as u64;
+    // characters by encoding (bytes 0x80 / 0xBF, first and last lead bytes, ...), each in four small contexts
+    let sweep = crate::common::encoding_sweep(o.thorough);
+    let r3 = par(&sweep, |c, rep| {
+        for s in [format!("{}", c), format!("{}a", c), format!("a{}\n{}b", c, c), format!("{}\r\n{}", c, c)] {
+            check(&s, rep);
+        }
+    });
+    rep.cells.insert("characters_swept_by_encoding".into(), sweep.len() as u64);
+    rep.merge(r3, 8);
     // supplementary, NOT deciding: long pseudo-random texts (sampling, labelled as such)
     let mut seed: u64 = std::env::var("VERIF_SEED").ok().and_then(|s| s.parse().ok()).unwrap_or(0) ^ 0x9e3779b97f4a7c15;
     let mut sampled = 0u64;
